@@ -43,7 +43,7 @@ func c16(r *core.Run) {
 	// directory list: the last one may be missing, with missing parents
 	src.Begin("dirs")
 	n := 1 + src.Intn(4)
-	pool := append([]string(nil), dirPool...)
+	pool := append([]string(nil), dirPoolNested...)
 	pool = append(pool, "/var/run/cdi/dynamic/deep")
 	var dirs []string
 	for len(dirs) < n { // draw without replacement (never loop on rejected draws: a replayed tape may be all zeros)
@@ -96,10 +96,20 @@ func c16(r *core.Run) {
 	}
 	for s := 0; s < steps; s++ {
 		src.Begin("op")
-		switch src.Pick(5, 3, 1) {
+		switch src.Pick(5, 3, 1, 2, 1) {
 		case 0:
-			if w := c16Write(r, e, dirs, faultDen); w != nil {
+			if w := c16Write(r, e, dirs, faultDen, nil); w != nil {
 				written = append(written, *w)
+			}
+		case 3: // the same Spec under the same name once more (the file may be gone, replaced, or still there)
+			if len(written) > 0 {
+				c16Write(r, e, dirs, faultDen, &written[src.Intn(len(written))])
+			}
+		case 4: // somebody else removes a file that was written
+			if len(written) > 0 {
+				w := written[src.Intn(len(written))]
+				e.admin.Unlink(memfs.AT_FDCWD, w.path)
+				r.Notef("rm %s (by another process)", w.path)
 			}
 		case 1:
 			if len(written) > 0 {
@@ -112,7 +122,11 @@ func c16(r *core.Run) {
 			nm := "never-written" + []string{"", ".json", ".yaml"}[src.Intn(3)]
 			c16Remove(r, e, dirs, nm, "", false, 0)
 		}
-		c16Check(r, e, dirs, auto, fmt.Sprintf("op %d", s+1))
+		// not every operation is followed by a refresh: the cache may be stale
+		// when the next operation starts (what it remembers must not matter)
+		if src.Bool(2, 3) || s == steps-1 {
+			c16Check(r, e, dirs, auto, fmt.Sprintf("op %d", s+1))
+		}
 		src.End()
 	}
 }
@@ -176,9 +190,14 @@ func confined(r *core.Run, e *env, histFrom int, last, what string) {
 	}
 }
 
-func c16Write(r *core.Run, e *env, dirs []string, faultDen int) *c16Written {
+// c16Write writes a fresh Spec under a generated name, or (again != nil) the
+// very same Spec under the very same name once more.
+func c16Write(r *core.Run, e *env, dirs []string, faultDen int, again *c16Written) *c16Written {
 	src := r.Src
 	last := dirs[len(dirs)-1]
+	if again != nil {
+		return c16DoWrite(r, e, dirs, faultDen, again.meta, again.name, true)
+	}
 	m := e.reg.Valid(src, false, gen.Opts{Vendors: c16Vendors, Classes: c16Classes})
 	raw := m.Spec
 	var name string
@@ -202,6 +221,14 @@ func c16Write(r *core.Run, e *env, dirs []string, faultDen int) *c16Written {
 		r.Failf("name", "not-a-single-component", "generated name %q (vendor %q class %q id %q) is not a single path component", name, m.Vendor, m.Class, id)
 	}
 	name += []string{"", ".json", ".yaml"}[src.Intn(3)]
+	_ = last
+	return c16DoWrite(r, e, dirs, faultDen, m, name, false)
+}
+
+func c16DoWrite(r *core.Run, e *env, dirs []string, faultDen int, m *gen.Meta, name string, again bool) *c16Written {
+	src := r.Src
+	last := dirs[len(dirs)-1]
+	raw := m.Spec
 	target := expectedPath(last, name)
 	beforeOthers := treeWithout(e.w.FS, last)
 	beforeLast := entriesOf(e.w.FS, last)
@@ -235,7 +262,7 @@ func c16Write(r *core.Run, e *env, dirs []string, faultDen int) *c16Written {
 	var werr error
 	e.do("WriteSpec", func() { werr = e.cache.WriteSpec(raw, name) })
 	e.w.Policy = nil
-	r.Notef("WriteSpec(%s/%s %v, %q) -> %v (faults fired %d)", m.Vendor, m.Class, m.Devices, name, werr, fired)
+	r.Notef("WriteSpec(%s/%s %v, %q) -> %v (faults fired %d, same Spec and name as before: %v)", m.Vendor, m.Class, m.Devices, name, werr, fired, again)
 	what := fmt.Sprintf("WriteSpec(%q)", name)
 	confined(r, e, histFrom, last, what)
 	afterOthers := treeWithout(e.w.FS, last)
@@ -283,6 +310,10 @@ func c16Write(r *core.Run, e *env, dirs []string, faultDen int) *c16Written {
 	}
 	if !hasNew {
 		r.Failf("write", "target-missing", "%s returned nil but the expected file %s does not exist; entries changed: %v", what, target, changed)
+	}
+	if again && hadOld && len(changed) == 0 && c16ContentOK(oldEnt.Data, raw, strings.HasSuffix(target, ".json")) {
+		// the same Spec written again over a file that already holds it: leaving the file alone is as good as replacing it
+		changed = []string{target}
 	}
 	if len(changed) != 1 || changed[0] != target {
 		r.Failf("confinement", "not-exactly-one-file", "%s must create or replace exactly %s; entries of %s that changed: %v", what, target, last, changed)
